@@ -12,15 +12,24 @@
 //	kind=invoice validateClaimInvoice
 //	kind=await   AwaitTxConfirmationAction.Execute with the real client as services.lightning
 //	kind=pay     ValidateTxAndPayClaimInvoiceAction.Execute (one attempt) with the real client
+//	kind=retry   the same Action while the chain tip moves between attempts: the node fails the first
+//	             `fails` attempts, the tip at attempt i is heights[i]; recorded: the tip at which every
+//	             payment attempt reached the node
+//
+// Bounds: the Action's retry loop has a 300 ms wall budget; the node stops failing after 15 attempts
+// (`exhausted`); a case that does not return within 5 s is recorded as `hang` and the harness exits 4.
 package main
 
 import (
 	"context"
+	"encoding/json"
 	"errors"
 	"flag"
 	"fmt"
 	"log"
 	"os"
+	"strings"
+	"sync"
 	"time"
 
 	"github.com/elementsproject/peerswap/clightning"
@@ -34,7 +43,45 @@ import (
 
 const liquidAsset = "6f0279e9ed041c3d710a9f57d0c02928416460c4b722ae3457a11eec381c526d"
 
+// chain: the tip moves with the payment attempts the node has seen, not with
+// the calls of the code under test.
+type chain struct {
+	mu        sync.Mutex
+	heights   []uint32
+	fails     int
+	attempts  int
+	tips      []int64
+	exhausted bool
+}
+
+const maxAttempts = 15
+
+func (c *chain) tip() uint32 {
+	i := c.attempts
+	if i >= len(c.heights) {
+		i = len(c.heights) - 1
+	}
+	return c.heights[i]
+}
+
+// onPay: a payment attempt reaches the node at the current tip.
+func (c *chain) onPay() bool {
+	c.mu.Lock()
+	defer c.mu.Unlock()
+	if len(c.heights) == 0 {
+		return false
+	}
+	c.tips = append(c.tips, route.SpecOr(int64(c.tip())))
+	c.attempts++
+	if c.attempts >= maxAttempts {
+		c.exhausted = true
+		return false
+	}
+	return c.attempts <= c.fails
+}
+
 type world struct {
+	ch   *chain
 	inv  *route.Invoices
 	fcln *route.FakeCln
 	cln  *clightning.ClightningClient
@@ -44,10 +91,18 @@ type world struct {
 }
 
 func (w *world) reset() {
+	w.ch = &chain{}
 	w.inv.Clear()
 	w.fcln.Reset()
 	w.flnd.Reset()
 	w.n++
+}
+
+func (w *world) seen(backend string) int {
+	if backend == "CLN" {
+		return w.fcln.Seen()
+	}
+	return w.flnd.Seen()
 }
 
 func (w *world) client(backend string) swap.LightningClient {
@@ -118,17 +173,21 @@ func setAnchor(d *swap.SwapData, c map[string]any) {
 
 type watcher struct {
 	swap.TxWatcher
-	heights []uint32
-	calls   int
-	added   [][2]uint32
+	ch    *chain
+	calls int
+	added [][2]uint32
 }
 
+// GetBlockHeight: the current tip; one call per height of the case, then the
+// chain service fails (which ends the retry loop of the unchanged Action).
 func (w *watcher) GetBlockHeight() (uint32, error) {
+	w.ch.mu.Lock()
+	defer w.ch.mu.Unlock()
 	w.calls++
-	if w.calls > len(w.heights) {
+	if w.calls > len(w.ch.heights) {
 		return 0, errors.New("verif: no further attempt")
 	}
-	return w.heights[w.calls-1], nil
+	return w.ch.tip(), nil
 }
 
 func (w *watcher) AddWaitForConfirmationTx(swapID, txID string, vout, startingHeight, paymentWindow uint32, scriptpubkey []byte) {
@@ -220,7 +279,8 @@ func (w *world) runAwait(c map[string]any) {
 	if ndj.Bool(c, "hasTx") {
 		d.OpeningTxHex = "0200"
 	}
-	wt := &watcher{heights: []uint32{uint32(route.Real(ndj.Int(c, "height")))}}
+	w.ch.heights = []uint32{uint32(route.Real(ndj.Int(c, "height")))}
+	wt := &watcher{ch: w.ch}
 	ev := (&swap.AwaitTxConfirmationAction{}).Execute(services(w.client(backend), wt), d)
 	out := "failed"
 	switch {
@@ -241,20 +301,56 @@ func (w *world) runAwait(c map[string]any) {
 	c["err"] = d.LastErrString
 }
 
+func seqOf(v any) []int64 {
+	var out []int64
+	if l, ok := v.([]any); ok {
+		for _, x := range l {
+			out = append(out, ndj.Int(map[string]any{"v": x}, "v"))
+		}
+	}
+	return out
+}
+
+// runPay: kind=pay (one height, the node never fails) and kind=retry.
 func (w *world) runPay(c map[string]any) {
 	backend := ndj.Str(c, "backend")
-	iv := route.MakeInvoice(w.n, route.PeerID, swapAmountSat*1000, route.Real(ndj.Int(c, "cltv")), ndj.Bool(c, "found"))
-	w.inv.Put(iv)
-	d := mkSwap(ndj.Str(c, "chain"), ndj.Int(c, "ver"), "out", swapAmountSat, 0, iv.Payreq, chanByName("swap").ClnStyle())
-	setAnchor(d, c)
-	d.OpeningTxHex = "0200"
-	wt := &watcher{heights: []uint32{uint32(route.Real(ndj.Int(c, "now")))}}
-	ev := (&swap.ValidateTxAndPayClaimInvoiceAction{}).Execute(services(w.client(backend), wt), d)
-	c["ev"] = string(ev)
-	c["attempts"] = wt.calls
-	c["pre_ok"] = d.ClaimPreimage == iv.Preimage
-	c["g"] = w.wire(backend, iv.Payreq)
-	c["err"] = d.LastErrString
+	retry := ndj.Str(c, "kind") == "retry"
+	for try := 0; ; try++ {
+		iv := route.MakeInvoice(w.n, route.PeerID, swapAmountSat*1000, route.Real(ndj.Int(c, "cltv")), ndj.Bool(c, "found"))
+		w.inv.Put(iv)
+		d := mkSwap(ndj.Str(c, "chain"), ndj.Int(c, "ver"), "out", swapAmountSat, 0, iv.Payreq, chanByName("swap").ClnStyle())
+		setAnchor(d, c)
+		d.OpeningTxHex = "0200"
+		if retry {
+			for _, h := range seqOf(c["heights"]) {
+				w.ch.heights = append(w.ch.heights, uint32(route.Real(h)))
+			}
+			w.ch.fails = int(ndj.Int(c, "fails"))
+		} else {
+			w.ch.heights = []uint32{uint32(route.Real(ndj.Int(c, "now")))}
+		}
+		wt := &watcher{ch: w.ch}
+		ev := (&swap.ValidateTxAndPayClaimInvoiceAction{}).Execute(services(w.client(backend), wt), d)
+		// the loop's wall budget ran out before its first tick was served (scheduler): not an answer, ask again
+		if ev == swap.Event_ActionFailed && w.seen(backend) == 0 && strings.Contains(d.LastErrString, "timeout") && try < 5 {
+			w.reset()
+			continue
+		}
+		c["ev"] = string(ev)
+		c["attempts"] = wt.calls
+		c["pre_ok"] = d.ClaimPreimage == iv.Preimage
+		c["g"] = w.wire(backend, iv.Payreq)
+		c["err"] = d.LastErrString
+		if retry {
+			tips := w.ch.tips
+			if tips == nil {
+				tips = []int64{}
+			}
+			c["tips"] = tips
+			c["exhausted"] = w.ch.exhausted
+		}
+		return
+	}
 }
 
 func (w *world) runPure(c map[string]any) {
@@ -292,6 +388,7 @@ func main() {
 	in := flag.String("cases", "cases.ndjson", "")
 	out := flag.String("out", "trace.ndjson", "")
 	dir := flag.String("dir", "", "scratch directory for the fake lightningd socket")
+	watchdog := flag.Duration("watchdog", 5*time.Second, "per-case limit; a case beyond it is recorded as hang, exit 4")
 	flag.Parse()
 	cases, err := ndj.ReadAll(*in)
 	if err != nil {
@@ -304,8 +401,8 @@ func main() {
 		}
 		defer os.RemoveAll(*dir)
 	}
-	// one attempt per tick; the retry budget is never the limiting factor
-	swap.VerifSetTiming(true, 60*time.Second, 100*time.Microsecond, 0)
+	// small wall budget for the claim-payment retry loop: a loop that neither pays nor gives up ends after 300 ms
+	swap.VerifSetTiming(true, 300*time.Millisecond, 100*time.Microsecond, 0)
 
 	w := &world{inv: route.NewInvoices()}
 	if w.fcln, err = route.StartFakeCln(*dir, w.inv); err != nil {
@@ -317,6 +414,8 @@ func main() {
 	}
 	var fr *route.FakeRouter
 	w.flnd, fr = route.NewFakeLnd(w.inv)
+	onPay := func() bool { return w.ch.onPay() }
+	w.fcln.OnPay, w.flnd.OnPay = onPay, onPay
 	w.lndc = lnd.VerifNewClient(context.Background(), w.flnd, fr, route.SelfID)
 
 	tw, err := ndj.NewWriter(*out)
@@ -325,7 +424,9 @@ func main() {
 	}
 	for i, c := range cases {
 		w.reset()
-		func() {
+		done := make(chan struct{})
+		go func() {
+			defer close(done)
 			defer func() {
 				if r := recover(); r != nil {
 					fmt.Fprintf(os.Stderr, "route: panic in case %d %v: %v\n", i, c, r)
@@ -337,12 +438,22 @@ func main() {
 				w.runRoute(c)
 			case "await":
 				w.runAwait(c)
-			case "pay":
+			case "pay", "retry":
 				w.runPay(c)
 			default:
 				w.runPure(c)
 			}
 		}()
+		select {
+		case <-done:
+		case <-time.After(*watchdog):
+			// the code under test neither answered nor gave up: machinery error, never a verdict
+			b, _ := json.Marshal(c)
+			fmt.Fprintf(os.Stderr, "route: hang in case %d: %s\n", i, b)
+			tw.Write(map[string]any{"kind": "hang", "case": string(b)})
+			_ = tw.Close()
+			os.Exit(4)
+		}
 		tw.Write(c)
 	}
 	if err := tw.Close(); err != nil {
